@@ -18,16 +18,23 @@ use log::error;
 use crate::stream::{Tag, TagPos};
 use crate::{Error, Result};
 
-/// Number of commits and consumes on any stream, ever.
-///
-/// A single threaded graph runner uses this to see that a pass over the blocks
-/// moved data, even if no block said so in its return value.
-pub(crate) static STREAM_ACTIVITY: std::sync::atomic::AtomicU64 =
-    std::sync::atomic::AtomicU64::new(0);
+// Number of commits and consumes on any stream by this thread, ever.
+//
+// A single threaded graph runner uses this to see that a pass over the blocks
+// moved data, even if no block said so in its return value. Per thread, so
+// that graphs running in other threads do not count.
+thread_local! {
+    static STREAM_ACTIVITY: std::cell::Cell<u64> = const { std::cell::Cell::new(0) };
+}
 
 /// Register that data was committed to or consumed from a stream.
 pub(crate) fn stream_activity() {
-    STREAM_ACTIVITY.fetch_add(1, std::sync::atomic::Ordering::Relaxed);
+    STREAM_ACTIVITY.with(|c| c.set(c.get().wrapping_add(1)));
+}
+
+/// Number of commits and consumes done by the calling thread so far.
+pub(crate) fn stream_activity_count() -> u64 {
+    STREAM_ACTIVITY.with(|c| c.get())
 }
 
 #[derive(Debug)]
